@@ -1264,7 +1264,35 @@ func (s *State) preprocess() error {
 		}
 	}
 
+	if !s.hasFileRule {
+		// A global rule can protect a file namespace as well. Such a rule is
+		// only evaluated while the files changed by a commit are verified,
+		// which must therefore not depend on the delegation rules alone.
+		s.hasFileRule = globalRulesProtectFiles(s.globalRules)
+	}
+
 	return nil
+}
+
+// globalRulesProtectFiles indicates if any threshold global rule applies to a
+// file namespace.
+func globalRulesProtectFiles(globalRules map[string][]tuf.GlobalRule) bool {
+	for _, rules := range globalRules {
+		for _, rule := range rules {
+			thresholdRule, isThresholdRule := rule.(tuf.GlobalRuleThreshold)
+			if !isThresholdRule {
+				continue
+			}
+
+			for _, pattern := range thresholdRule.GetProtectedNamespaces() {
+				if strings.HasPrefix(pattern, fileRuleScheme) {
+					return true
+				}
+			}
+		}
+	}
+
+	return false
 }
 
 func (s *State) getRootVerifier() (*SignatureVerifier, error) {
